@@ -11,7 +11,7 @@ import ast
 from .events import run_function
 from .fold import EnumRef, Regex, Unfoldable
 from .interp import AV, BASE_TOP, EXT_TOP, UNK, Out, const, dict_av, dslots, exc
-from .terms import PURE_STR_METHODS, T, TermRule, destruct, is_opaque, term_of, tv
+from .terms import PURE_BUILTINS, PURE_STR_METHODS, T, TermRule, destruct, is_opaque, term_of, tv
 
 MUTATING_METHODS = {"append", "extend", "insert", "pop", "remove", "clear", "sort", "reverse", "update", "setdefault", "popitem", "discard", "add",
                     "put", "close", "seek", "write", "send", "sendall", "settimeout", "release_conn", "drain_conn", "connect", "request", "getresponse",
@@ -166,7 +166,30 @@ class GenRule(TermRule):
                 if r:
                     outs.append(self._raise(st, node, f"{recv.sym}.{leaf}", r))
                 return outs
+        if isinstance(f, ast.Name) and f.id in self.raising and f.id in PURE_BUILTINS and st.env.get(it.var(f.id)) is None:
+            # a builtin declared as possibly raising (memoryview(x) -> TypeError, ...): its term, or the exception
+            typ = f"builtins.{f.id}" if f.id in ("str", "bytes", "int", "float", "list", "tuple", "set", "frozenset", "dict", "bytearray", "memoryview") else None
+            return [Out("normal", st, AV("unk", sym=T(f.id, *args), none=False, typ=typ)), self._raise(st, node, f.id, self.raising[f.id])]
         if isinstance(f, ast.Name):
+            v = st.env.get(it.var(f.id))
+            if v is not None and v.sym:
+                op_, a_ = destruct(v.sym)
+                if op_ == "getattr" and len(a_) >= 2 and destruct(a_[1])[0] == "const" and isinstance(destruct(a_[1])[1], str):
+                    # m = getattr(obj, "name", None); m(...)  is  obj.name(...)
+                    leaf = destruct(a_[1])[1]
+                    nm = f"{a_[0]}.{leaf}"
+                    s = st.copy()
+                    if leaf in MUTATING_METHODS:
+                        self.ev(s, "call", nm, *args)
+                    outs = [Out("normal", s, tv(T(nm, *args)))]
+                    r = self.raising.get(leaf)
+                    if r:
+                        outs.append(self._raise(st, node, nm, r))
+                    return outs
+            if v is None and q is None:
+                host = it.m.funcs.get(getattr(it, "func_qual", None) or "")
+                if host is not None and any(isinstance(n_, (ast.FunctionDef, ast.AsyncFunctionDef)) and n_.name == f.id and n_ is not host.node for n_ in ast.walk(host.node)):
+                    return [Out("normal", st, tv(T(f"nested:{f.id}", *args), none=False, truth=True))]
             if f.id == "cls" or (isinstance(f, ast.Name) and q and q in it.m.classes):
                 return [Out("normal", st, tv(T("new:" + (f.id if f.id == "cls" else q.rsplit(".", 1)[-1]), *args), none=False, truth=True))]
             if f.id == "hasattr" and len(pos) == 2:
